@@ -79,7 +79,7 @@ fn parse_json_records(printed: &[String], key: &str) -> Vec<Vec<u8>> {
 impl Monitor for C12 {
     fn id(&self) -> &'static str { "C12" }
     fn rule(&self) -> &'static str {
-        "kinds: everyline (SELECT l over a table admitting every line, 1-5 files of LF/CRLF/empty/unterminated/long lines, records and total_lines vs the harness' own splitter), concat (SELECT / aggregate / join statements over [f1..fk] vs the concatenation: records and total_lines equal), badutf8 (one invalid byte sequence in the main or joined file: later lines still delivered or an error reported). Non-trivial = k >= 2 files or a CRLF / unterminated / empty line present; distinct by case hash"
+        "kinds: everyline (SELECT l over a table admitting every line, 1-5 files of LF/CRLF/empty/unterminated/long lines, records and total_lines vs the harness' own splitter), concat (SELECT / aggregate / join statements over [f1..fk] vs the concatenation: records and total_lines equal), badutf8 (one or two invalid byte sequences - one case in four: 15-600 invalid lines, alone or alternating with well-formed ones - in the main or joined file: later lines still delivered or an error reported). Non-trivial = k >= 2 files or a CRLF / unterminated / empty line present; distinct by case hash"
     }
     fn assumptions(&self) -> Vec<String> { vec!["line = bytes up to LF, an immediately preceding CR belongs to the line end".into()] }
     fn sizes(&self, tier: Tier) -> Sizes { match tier { Tier::Quick => Sizes { cases: 6_000, min_nontrivial: 1_000 }, Tier::Thorough => Sizes { cases: 150_000, min_nontrivial: 20_000 } } }
@@ -137,6 +137,17 @@ impl Monitor for C12 {
                     file.push(json!({"rep": "filler\n", "n": rng.below(25) as u64}));
                     file.push(json!({"hex": *rng.pick(&["ff", "c328", "80"])}));
                     file.push(json!("\n"));
+                }
+                if rng.chance(1, 4) {
+                    // many invalid lines (a reader that gives a file up as "binary" after some number of them), alone or between
+                    // well-formed lines: counts around powers of two and well beyond
+                    let m = *rng.pick(&[15usize, 16, 17, 31, 32, 33, 63, 64, 65, 66, 127, 128, 129, 255, 257, 600]);
+                    let alternate = rng.chance(1, 2);
+                    for i in 0..m {
+                        file.push(json!({"hex": *rng.pick(&["ff", "c328", "80", "fe"])}));
+                        file.push(json!("\n"));
+                        if alternate { file.push(json!(format!("mid{}\n", i))); }
+                    }
                 }
                 file.extend(after.clone());
                 json!({"kind": "badutf8", "file": file, "where": *rng.pick(&["main", "main", "joined"]), "after": after_n, "before": before})
